@@ -4,7 +4,7 @@
    decodePageToken use the same base64 alphabet, validatePageSize is called, the paged listing is
    not read through the read mask) - in fact it IS the hand model [std_cfg].  A change to pages.go
    or to a handler that touches any of this makes this file fail to compile. *)
-From SC Require Import Base.Prelude Pages.Codec Pages.PagerCfg Gen.Pagers Pages.Pager.
+From SC Require Import Base.Prelude Pages.Codec Pages.PagerCfg Gen.Pagers Pages.Pager Pages.Listing.
 
 Definition all_servers : list server := [SElectric; SHail; SParent; SPublication; SConsumables; SInventory].
 
@@ -35,7 +35,7 @@ Qed.
    the whole listing, page size validated, listing not masked before paging *)
 Definition handler_ok (h : handler_row) : bool :=
   h_shape h && match h_variant h with Some _ => true | None => false end
-  && h_validates h && negb (h_mask_before h) && h_ub_strict h && h_total_full h.
+  && h_validates h && negb (h_mask_before h) && h_resort h && h_ub_strict h && h_total_full h.
 
 Theorem handler_table_ok : forallb handler_ok handler_table = true.
 Proof. vm_compute. reflexivity. Qed.
@@ -54,4 +54,8 @@ Theorem all_cfg_ok : forall s, cfg_ok (cfg_of s) = true.
 Proof. destruct s; vm_compute; reflexivity. Qed.
 
 Theorem cfg_of_variant : forall s, pc_variant (cfg_of s) = variant_of s.
+Proof. destruct s; vm_compute; reflexivity. Qed.
+
+(* every handler re-sorts the model-level listing by the field its search and its token use *)
+Theorem all_resort : forall s, resorts_of s = true.
 Proof. destruct s; vm_compute; reflexivity. Qed.
